@@ -226,7 +226,10 @@ def fstep (v : Pairing) (ca cb : Cfg) (f : Fwd) : FLabel → Option Fwd
     | .idle =>
       match step ca f.a .recvAny with
       | some a' => afterAny cb f a' (anyOut ca f.a)
-      | none => none
+      | none =>
+        -- `recv_any` on a receiver that has seen `Finished` returns `Ok(None)` at once (receiver.rs,
+        -- `if self.finished`); this happens when `Finished` ended a chunk stream (reported as `Cancelled`)
+        if f.a.r.finished then some { f with ph := .done .ok } else none
     | _ => none
   | .recvChunk =>
     match f.ph with
